@@ -57,6 +57,8 @@ type blkSched struct {
 	SCap      int       `json:"scap"`
 	CWT       int       `json:"cwt"`
 	PeerDied  bool      `json:"peer_died"` // session close = the peer disappeared (onRemoteClose) instead of Close()
+	Cb        bool      `json:"cb"`        // callback mode: the read under test is done by OnData in the callback goroutine
+	KnownCb   bool      `json:"known_cb"`  // finding callback-close-leaves-reader-blocked is listed
 	Eager     bool      `json:"eager"`     // a reader woken by an event runs on at once (until it blocks or returns)
 }
 
@@ -100,21 +102,23 @@ type blkScenario struct {
 }
 
 type blkResult struct {
-	Runs         []blkRun       `json:"runs"`
-	Violations   []blkViolation `json:"violations"`
-	Inconclusive []string       `json:"inconclusive"`
-	Scenarios    []blkScenario  `json:"scenarios"`
-	Steps        int            `json:"steps"`
-	Releases     int            `json:"releases"`    // times a blocked waiter was released by an event
-	BlockedObs   int            `json:"blocked_obs"` // quiescent points with the waiter blocked (O1 evaluated)
-	Returns      map[string]int `json:"returns"`
-	MaxReleaseUs int64          `json:"max_release_us"`
-	EosWithData  int            `json:"eos_with_data"`
-	EosWitness   string         `json:"eos_witness"`
-	TimingRetry  int            `json:"timing_retries"`
-	Actions      map[string]int `json:"actions"` // environment / waiter steps really executed, by specification action
-	WakeStuck    int            `json:"wake_stuck"`
-	WakeWitness  string         `json:"wake_witness"`
+	Runs           []blkRun       `json:"runs"`
+	Violations     []blkViolation `json:"violations"`
+	Inconclusive   []string       `json:"inconclusive"`
+	Scenarios      []blkScenario  `json:"scenarios"`
+	Steps          int            `json:"steps"`
+	Releases       int            `json:"releases"`    // times a blocked waiter was released by an event
+	BlockedObs     int            `json:"blocked_obs"` // quiescent points with the waiter blocked (O1 evaluated)
+	Returns        map[string]int `json:"returns"`
+	MaxReleaseUs   int64          `json:"max_release_us"`
+	EosWithData    int            `json:"eos_with_data"`
+	EosWitness     string         `json:"eos_witness"`
+	TimingRetry    int            `json:"timing_retries"`
+	Actions        map[string]int `json:"actions"` // environment / waiter steps really executed, by specification action
+	WakeStuck      int            `json:"wake_stuck"`
+	CbCloseBlocked int            `json:"cb_close_blocked"`
+	CbCloseWitness string         `json:"cb_close_witness"`
+	WakeWitness    string         `json:"wake_witness"`
 }
 
 // ---------------------------------------------------------------- goroutine states
@@ -180,6 +184,7 @@ type blkThr struct {
 	panicV  interface{}
 	startCh chan struct{}
 	started bool
+	altDone func() bool // the goroutine may also end without closing done (callback goroutine that never calls OnData)
 }
 
 func (th *blkThr) start() {
@@ -223,7 +228,7 @@ func (th *blkThr) finished() bool {
 	case <-th.done:
 		return true
 	default:
-		return false
+		return th.altDone != nil && th.altDone()
 	}
 }
 
@@ -440,6 +445,10 @@ type blkReadWorld struct {
 	near      bool      // the schedule lets this deadline pass
 	dlTick    int
 	accounted bool
+	cbRead    bool // callback mode: OnData's read has returned
+	cbCalls   int32
+	cbClosed  bool // callback mode: a local Close was deferred (CloseCb) in this run
+	cbKnown   int
 	eosDetail string
 	timingBad string
 	seenGate  *vsGateT
@@ -515,6 +524,12 @@ func (w *blkReadWorld) obs() blkObs {
 		"dpc": w.dpc, "cpc": w.cpc, "mv": w.mvHits, "sth": w.stHits, "now": w.now}
 	o["pend"] = w.pendBytes()
 	o["rbuf"] = w.bs.recvBuf.len
+	if w.sc.Cb && w.R != nil && w.R.finished() {
+		// the rest of the callback goroutine (further OnData calls, the deferred close) is not modelled
+		for _, k := range []string{"pend", "rbuf", "tok", "st", "cls"} {
+			delete(o, k)
+		}
+	}
 	return o
 }
 
@@ -534,6 +549,22 @@ func (w *blkReadWorld) checkBlocked() {
 		why = "the stream's close notification has been given"
 	case w.cpc != "mid" && w.bs.getStreamState() != uint32(streamOpened):
 		why = "the stream is " + blkStateName(w.bs.getStreamState())
+		if w.sc.Cb && w.cbClosed {
+			// finding callback-close-leaves-reader-blocked: Close() while the callback goroutine is active is only deferred
+			// (open -> half, no notification), the read inside OnData is not released by it - nor by a later peer close
+			w.res.CbCloseBlocked++
+			if w.res.CbCloseWitness == "" {
+				js, _ := json.Marshal(w.sc.Steps[:w.at+1])
+				w.res.CbCloseWitness = fmt.Sprintf("%s: ReadBytes(%d) inside OnData (goroutine state %q in Stream.readMore) stays blocked after "+
+					"Stream.Close() from another goroutine returned nil: stream state %s, closeNotifyCh not closed; steps %s",
+					w.sc.Name, w.sc.Need, st, blkStateName(w.bs.getStreamState()), js)
+			}
+			if w.sc.KnownCb {
+				return
+			}
+			why = "Stream.Close() was called by another goroutine (callback mode: only deferred, the stream is " +
+				blkStateName(w.bs.getStreamState()) + ", no close notification)"
+		}
 	case w.cpc != "mid" && w.sess != "up":
 		why = "the session is shut down"
 	case w.dpc == "idle" && w.pendBytes()+w.bs.recvBuf.len >= w.sc.Need:
@@ -576,7 +607,7 @@ func (w *blkReadWorld) checkReturn() {
 		if st == uint32(streamOpened) && !blkClosed(w.bs.closeNotifyCh) && w.sess == "up" {
 			w.fail("error-without-cause", "ReadBytes returned "+w.lastRes+" on an open stream of a live session")
 		}
-		if w.lastRes == "eos" && w.pendBytes()+w.bs.recvBuf.len >= w.sc.Need {
+		if w.lastRes == "eos" && w.peerCl && w.pendBytes()+w.bs.recvBuf.len >= w.sc.Need {
 			w.res.EosWithData++
 			b, _ := json.Marshal(w.sc.Steps[:w.at+1])
 			w.eosDetail = fmt.Sprintf("ReadBytes(%d) returned ErrEndOfStream although %d bytes flushed by the peer before it closed had been "+
@@ -631,7 +662,59 @@ func (w *blkReadWorld) setup() error {
 	w.seq = 0
 	w.sess, w.dpc, w.cpc = "up", "idle", "idle"
 	w.lastRes = "none"
+	if w.sc.Cb {
+		if err = w.bs.SetCallbacks(&blkCallbacks{w: w}); err != nil {
+			return err
+		}
+	}
 	return nil
+}
+
+// blkCallbacks: callback mode. The first OnData does the read under test (ReadBytes(Need) with fewer bytes delivered: it
+// blocks in readMore inside the callback goroutine); later calls just take what is there.
+type blkCallbacks struct{ w *blkReadWorld }
+
+func (c *blkCallbacks) OnData(r BufferReader) {
+	w := c.w
+	if atomic.AddInt32(&w.cbCalls, 1) > 1 {
+		r.Discard(r.Len())
+		return
+	}
+	atomic.StoreInt64(&w.R.gid, blkGoid())
+	defer func() {
+		if p := recover(); p != nil {
+			w.R.panicV = fmt.Sprintf("%v", p)
+		}
+		w.cbRead = true
+		close(w.R.done)
+	}()
+	b, err := r.ReadBytes(w.sc.Need)
+	w.retAt = time.Now()
+	w.lastErr, w.lastN = err, len(b)
+	if err == nil {
+		w.consumed = int(b[0]) + len(b)
+		r.ReleasePreviousRead()
+	}
+}
+func (c *blkCallbacks) OnLocalClose()  {}
+func (c *blkCallbacks) OnRemoteClose() {}
+
+// setDeadline: real read deadline of read number w.rd (see RStart)
+func (w *blkReadWorld) setDeadline(i int) {
+	w.dlTick = w.sc.Deadlines[w.rd-1]
+	w.near = false
+	switch {
+	case w.dlTick == 0:
+		w.deadline = time.Time{}
+	case w.dlTick <= w.now:
+		w.deadline = time.Now().Add(-time.Millisecond)
+	case w.ticksAhead(i+1, w.dlTick):
+		w.deadline = time.Now().Add(w.tickD)
+		w.near = true
+	default:
+		w.deadline = time.Now().Add(time.Hour)
+	}
+	w.bs.SetReadDeadline(w.deadline)
 }
 
 func (w *blkReadWorld) teardown() {
@@ -653,7 +736,18 @@ func (w *blkReadWorld) teardown() {
 			}
 		}
 	}
-	if w.pair != nil {
+	alive := false
+	if w.sc.Cb && w.bs != nil {
+		// the callback goroutine still works on the stream after OnData returned: never unmap under it
+		wg := make(chan struct{})
+		go func() { w.bs.asyncGoroutineWg.Wait(); close(wg) }()
+		select {
+		case <-wg:
+		case <-time.After(w.bound):
+			alive = true
+		}
+	}
+	if w.pair != nil && !alive {
 		if w.sess == "notified" {
 			w.pair.dispB.run()
 		}
@@ -690,6 +784,10 @@ func (w *blkReadWorld) syncR() {
 		} else if w.R.kind == blkLblState {
 			w.stHits++
 		}
+	}
+	if w.R.finished() && !w.accounted && w.sc.Cb && !w.cbRead {
+		w.accounted = true // the callback goroutine left without calling OnData (stream not open any more)
+		return
 	}
 	if w.R.finished() && !w.accounted {
 		w.accounted = true
@@ -730,24 +828,11 @@ func (w *blkReadWorld) step(i int, s blkStep) (skipped bool, timing string) {
 	}
 	switch {
 	case s.A == "RStart":
-		if w.R != nil && !w.R.finished() {
+		if w.sc.Cb || (w.R != nil && !w.R.finished()) {
 			return true, ""
 		}
 		w.rd++
-		w.dlTick = w.sc.Deadlines[w.rd-1]
-		w.near = false
-		switch {
-		case w.dlTick == 0:
-			w.deadline = time.Time{}
-		case w.dlTick <= w.now:
-			w.deadline = time.Now().Add(-time.Millisecond)
-		case w.ticksAhead(i+1, w.dlTick):
-			w.deadline = time.Now().Add(w.tickD)
-			w.near = true
-		default:
-			w.deadline = time.Now().Add(time.Hour)
-		}
-		w.bs.SetReadDeadline(w.deadline)
+		w.setDeadline(i)
 		w.mvHits, w.stHits = 0, 0
 		w.lastRes = "none"
 		w.accounted, w.seenGate = false, nil
@@ -807,7 +892,31 @@ func (w *blkReadWorld) step(i int, s blkStep) (skipped bool, timing string) {
 		if w.dpc != "mid" {
 			return true, ""
 		}
-		w.advance(w.D, nil, w.R)
+		if w.sc.Cb && w.R == nil && w.bs.getStreamState() != uint32(streamClosed) {
+			// callback mode, first message: fillDataToReadBuffer starts the callback goroutine; it is caught at its first
+			// scheduling point (the moveTo in front of the OnData loop)
+			w.rd = 1
+			w.setDeadline(i)
+			w.mvHits, w.stHits = 0, 0
+			w.accounted, w.seenGate = false, nil
+			bs := w.bs
+			w.R = &blkThr{name: "callback-goroutine", done: make(chan struct{}), blockFn: "readMore", startCh: make(chan struct{}),
+				started: true}
+			w.R.altDone = func() bool {
+				return atomic.LoadInt32(&w.cbCalls) == 0 && atomic.LoadUint32(&bs.callbackInProcess) == 0
+			}
+			labels := []string{blkLblMove, blkLblState, blkLblSel}
+			gates := []*vsGateT{vsGateArm(blkLblMove, 1), vsGateArm(blkLblState, 1), vsGateArm(blkLblSel, 1)}
+			w.advance(w.D, nil)
+			w.waitThr(w.R, gates, labels)
+			for _, g := range gates {
+				if g != w.R.gate {
+					g.releaseGate()
+				}
+			}
+		} else {
+			w.advance(w.D, nil, w.R)
+		}
 		w.dpc = "idle"
 	case s.A == "HalfClose":
 		if w.peerCl || w.dpc != "idle" {
@@ -830,6 +939,13 @@ func (w *blkReadWorld) step(i int, s blkStep) (skipped bool, timing string) {
 		} else {
 			w.cpc = "done"
 		}
+	case s.A == "CloseCb":
+		if !w.sc.Cb || w.cpc != "idle" || w.R == nil {
+			return true, ""
+		}
+		w.C, _ = w.env("closer", nil, func() { w.bs.Close() })
+		w.cpc = "done"
+		w.cbClosed = true
 	case s.A == "CloseFin":
 		if w.cpc != "mid" {
 			return true, ""
@@ -849,7 +965,7 @@ func (w *blkReadWorld) step(i int, s blkStep) (skipped bool, timing string) {
 		})
 		w.sess = "notified"
 	case s.A == "SessLambda":
-		if w.sess != "notified" || w.dpc != "idle" {
+		if w.sess != "notified" || w.dpc != "idle" || w.sc.Cb {
 			return true, ""
 		}
 		w.env("session-teardown", nil, func() { w.pair.dispB.run() })
@@ -943,6 +1059,9 @@ func blkRunRead(job *blkJob, sc *blkSched, res *blkResult) blkRun {
 			run.Events = append(run.Events, blkEvent{A: s.A, K: s.K, Obs: w.obs()})
 			if w.viol != nil || w.inc != "" {
 				break
+			}
+			if sc.Cb && w.R != nil && w.R.finished() {
+				break // callback mode: the behaviour ends with the read
 			}
 		}
 		if w.viol == nil && w.inc == "" && run.Timing == "" && w.R != nil && w.R.gate != nil {
